@@ -912,6 +912,8 @@ pub fn parse(lex_tokens: &Vec<LexerToken>) -> Result<ParseResult, CompilerError>
     // last token that was neither whitespace nor an annotation, and whether any of those came after it
     let mut previous_significant_def = SecondaryDefinition::None;
     let mut separated = false;
+    // a side effect block is transparent for composition: what follows it composes with what came before it
+    let mut side_effect_previous_defs: Vec<SecondaryDefinition> = vec![];
 
     let trimmed = trim_tokens(&lex_tokens);
 
@@ -955,7 +957,6 @@ pub fn parse(lex_tokens: &Vec<LexerToken>) -> Result<ParseResult, CompilerError>
                         last_left.and_then(|p| nodes.get(p)).and_then(|node| {
                             // need to update prev def as well for composition check
                             previous_second_def = node.secondary_definition;
-                            previous_significant_def = node.secondary_definition;
                             Some(())
                         });
                     }
@@ -986,8 +987,21 @@ pub fn parse(lex_tokens: &Vec<LexerToken>) -> Result<ParseResult, CompilerError>
                 if separated {
                     check_separated_composition(previous_significant_def, secondary_definition, check_for_list, token)?;
                 }
-                previous_significant_def = secondary_definition;
-                separated = false;
+                match secondary_definition {
+                    SecondaryDefinition::StartSideEffect => {
+                        side_effect_previous_defs.push(previous_significant_def);
+                        previous_significant_def = secondary_definition;
+                        separated = false;
+                    }
+                    SecondaryDefinition::EndSideEffect => {
+                        previous_significant_def = side_effect_previous_defs.pop().unwrap_or(SecondaryDefinition::None);
+                        separated = true;
+                    }
+                    _ => {
+                        previous_significant_def = secondary_definition;
+                        separated = false;
+                    }
+                }
             }
         }
 
